@@ -32,3 +32,5 @@ mk("C07-throw-crosses-native-frame", "C07.log", [[TRY(1, [NAT(2, "forEach", [D(3
 mk("C07-typeerror-inside-callback-escapes", "C07.host", [[TRY(1, [NAT(2, "map", [D(3, "null_prop")])], [P(5)])]], [0])
 mk("C07-runtime-error-not-instanceof-error", "C07.value", [[TRY(1, [D(1, "null_prop")], [P(2)])]], [0])
 mk("C07-return-from-forin-shifts-caller-operands", "C07.operands", [[CALL(1, 1, "plus")], [LOOP(2, "forin", 2, [RET(13)])]], [])
+mk("C07-finally-break-after-return-from-inner-loop", "C07.log",
+   [[CALL(1, 1)], [LOOP(1, "for", 1, [TRY(2, [LOOP(3, "for", 1, [RET(None)])], None, [BRK(1)])])]], [])
